@@ -34,9 +34,9 @@ CHECKS = {
     "C08": ("mc-model", MC, "explicit-state BFS over the implementation (E2) against a shadow token ledger",
             "A shadow ledger of tokens paid in/out is kept next to the real market; after every successful action the change of accounted holdings must equal the ledger change up to funding collected minus claimable funding paid, exactly; the literal non-negativity of that residual is decided too (by-design lazy settlement is a listed known finding, deficits beyond unsettled accrual fail).",
             "as C04", "§4 C08"),
-    "C09": ("mc-model", MC, "explicit-state BFS over the implementation (E2), transition checks",
-            "After every successful increase/decrease the remaining position is tested with the liquidation predicate at the execution prices; a liquidation may succeed only on a position that was liquidatable and must close it. ADL clause: not covered here (store-level).",
-            "as C04; ADL pre/post conditions live in the store program and are outside this check", "§4 C09"),
+    "C09": ("mc-model", MC, "explicit-state BFS over the implementation (E2) for the model part, explicit-state BFS (E3) over real store instructions for the liquidation / auto-deleveraging part (two checker binaries, one merged report)",
+            "Model part: after every successful increase/decrease the remaining position is tested with an independent liquidation predicate at the execution prices and around the price where it flips; a liquidation may succeed only on a position that was liquidatable and must close it. Program part: update_adl_state, auto_deleverage (1/4, 1/2, all) and liquidate on real positions with a configured ADL limit and minimum factor, five price sets: an executed ADL order requires the pnl-to-pool factor to have exceeded the limit, strictly lowers it and does not go below the minimum; a liquidation succeeds only for a liquidatable position and leaves nothing of it.",
+            "as C04; svm-lite runtime trusted for the program part", "§10 C09"),
     "C10": ("mc-model", MC, "explicit-state BFS over the implementation (E2) with per-state open/close probes",
             "On every expanded state fresh positions of all four side/collateral kinds are opened and fully closed at once; value received (outputs + claimables) is compared with collateral value + 2 base units.",
             "as C04", "§4 C10"),
@@ -127,9 +127,9 @@ CHECKS = {
     "C38": ("mc-store", E1, "exhaustive product enumeration (E1) of the APY and reward functions against exact big-integer references plus explicit-state BFS (E3) over the real liquidity-provider program on the real store",
             "compute_time_weighted_apy over six gradients x stake starts x durations around every week boundary against the exact average of weekly buckets and a literal per-second sum; calculate_gt_reward_amount over boundary values x rates x integrals: formula, saturation, monotonicity, negative durations rejected. Stake/unstake histories (stake_gm with the pricing CPI, unstake of all / half / all but one / one / too much by owner and stranger, claim switch, three minimum stake values, clock advances, dust dropped into a vault): partial unstakes pay exactly the request and keep floor(value*remaining/staked); full exits (by amount or forced by the minimum stake value) sweep and close the vault and the position; with claims disabled only full-amount unstakes pass.",
             "durations bounded by 10^17 s; stake_glv and claim_gt are not explored", "§10 C38"),
-    "C39": ("mc-store", MC, "explicit-state BFS (E2) over trade sequences on the real update_leaderboard plus E1 on extend_competition_time",
-            "Every sequence of counted trades by seven traders with three or four volume increments to the stated depth: at most five distinct entries, sorted, latest volumes, filled with the top traders, excluded traders not above the last entry; extensions over end time/duration/cap/trigger time at the i64 limits never move the end earlier nor past max(old end, now + cap).",
-            "merge-window/threshold bookkeeping of the on_executed handler is not explored", "§5 C39"),
+    "C39": ("mc-store", MC, "explicit-state BFS (E2) over trade sequences on the real update_leaderboard, E1 on extend_competition_time, and explicit-state BFS (E3) over real orders executed by the store with the competition program as callback",
+            "Every sequence of counted trades by seven traders with three or four volume increments to the stated depth: at most five distinct entries, sorted, latest volumes, filled with the top traders, excluded traders not above the last entry; extensions over end time/duration/cap/trigger time at the i64 limits never move the end earlier nor past max(old end, now + cap). End to end: increase/decrease orders of seven traders with the competition callback, clock advances inside/beyond the merge window and past the end time, late executions: the same board and end-time invariants on the stored accounts after every trade.",
+            "agreement with a reference of the merge-window bookkeeping is counted, not required (not part of the statement)", "§10 C39"),
     "C19": ("mc-store", E1, "exhaustive enumeration (E1) of the instruction x signer matrix plus explicit-state BFS (E3) of authority/receiver hand-over histories, through the real program entrypoints in the in-process runtime",
             "Every probed privileged store instruction (named in the evidence) is executed with valid accounts by the entitled signer (passes authorisation) and by a stranger, the admin and the single-role holder of each of nine other roles (must be rejected; rejected instructions commit nothing); the moving offices (store authority, fee receiver) are explored breadth first as nominate/accept histories by three actors to a fixpoint against a reference. Timelock instructions are covered by C36, market config updates by C20, execute/close by C23.",
             "claims only the instructions listed in the evidence (46: store administration, token map, oracle, markets, GT, position-order execution and liquidation, GLV management, liquidity-provider administration); GLV actions, shifts, virtual inventory, ADL, treasury and competition administration are not probed", "§6 C19"),
